@@ -84,10 +84,10 @@ Fixpoint ghascycle (f : nat) (i : N) (y : gval) (s : gsub) : option bool :=
 (* unify.go:44-57   func isLeaf(x any) bool *)
 Definition is_leaf (x : gval) : bool :=
   if is_nil x then true
-  else match x with
-  | GStructPtr _ => false                                  (* Ptr with Elem Kind Struct *)
-  | GSlice _ _ => false
-  | _ => true                                              (* Ptr to non-struct, Map, other kinds *)
+  else match kind_of x with
+  | KPtr => negb (kind_eqb (elem_kind x) KStruct)          (* case reflect.Ptr: return v.Elem().Kind() != reflect.Struct *)
+  | KSlice => false                                        (* case reflect.Slice: return false *)
+  | _ => true                                              (* Map, struct by value, other kinds *)
   end.
 
 Inductive gres := GROOF | GRFail | GROk (s : gsub).
